@@ -448,6 +448,10 @@ impl MorselAggregateExec {
             }
         }
 
+        let needs_null_free_inputs = kinds
+            .iter()
+            .any(|(k, _)| matches!(k, DenseAgg::SumF64 | DenseAgg::SumI64 | DenseAgg::Avg));
+
         // Key bounds from parquet footers
         let mut kmin = i64::MAX;
         let mut kmax = i64::MIN;
@@ -467,6 +471,32 @@ impl MorselAggregateExec {
                 let Some(stats) = col.statistics() else {
                     return Ok(None);
                 };
+                // This path has no slot for a NULL key and a bare sum cannot
+                // say "no non-NULL input" (SQL: NULL, not 0). Unless the
+                // footers prove the key — and, for SUM/AVG, every column that
+                // is read — NULL-free, leave the query to the generic path.
+                if stats.null_count_opt() != Some(0) {
+                    return Ok(None);
+                }
+                if needs_null_free_inputs {
+                    let read_cols: Vec<usize> = match &self.projection {
+                        Some(p) => p.clone(),
+                        None => (0..rg.num_columns()).collect(),
+                    };
+                    for ci in read_cols {
+                        if ci >= rg.num_columns() {
+                            return Ok(None);
+                        }
+                        let null_free = rg
+                            .column(ci)
+                            .statistics()
+                            .and_then(|s| s.null_count_opt())
+                            == Some(0);
+                        if !null_free {
+                            return Ok(None);
+                        }
+                    }
+                }
                 use parquet::file::statistics::Statistics;
                 let (lo, hi) = match stats {
                     Statistics::Int64(s) => match (s.min_opt(), s.max_opt()) {
